@@ -193,6 +193,20 @@ def families(canary_path):
             out.append(("clipuse", '<svg %s viewBox="0 0 9 9"><clipPath id="c1"><use xlink:href="#%s"/></clipPath>'
                         '<g id="t1" clip-path="url(#c1)">%s</g></svg>'
                         % (NS, {"cycle": "t1", "dangling": "nope", "end": "r"}[closing], '<rect id="r" width="3" height="3"/>')))
+    # reference cycles whose links are written with blanks around the fragment (a lookup that trims must
+    # trim in the cycle check too)
+    for pad in ('#u1 ', ' #u1', '#u1\n'):
+        out.append(("usechain", '<svg %s viewBox="0 0 9 9"><g id="u1"><rect width="2" height="2"/><use xlink:href="%s"/></g></svg>'
+                    % (NS, pad.replace("\n", "&#10;"))))
+        out.append(("usechain", '<svg %s viewBox="0 0 9 9"><g id="u1"><use xlink:href="#u2"/></g><g id="u2"><rect width="1" height="1"/>'
+                    '<use xlink:href="%s"/></g></svg>' % (NS, pad.replace("\n", "&#10;"))))
+    # almost well-formed paint / clip references with long ids (a regular expression must not backtrack
+    # exponentially on them)
+    for n_ in (26, 34, 48):
+        lid = ("Figma-gradient_id.0123456789-abcdefghijklmnopqrstuvwxyz-ABCDEF" * 2)[:n_]
+        for v in ('fill="url(#%s) red"', 'fill="url(#%s )"', 'fill="url(#%s"', 'fill="url(#%s);"', 'clip-path="url(#%s) "'):
+            out.append(("malformed", '<svg %s viewBox="0 0 9 9"><defs><linearGradient id="%s"><stop offset="0" stop-color="red"/>'
+                        '</linearGradient></defs><rect width="4" height="4" %s/></svg>' % (NS, lid, v % lid)))
     bad_vals = ['transform="rotate(x)"', 'opacity="abc"', 'transform="matrix(1 2 3)"', 'fill-opacity=""',
                 'stroke-width="wide" stroke="red"', 'clip-path="url(c)"', 'fill="url(#"', 'style="fill"',
                 'style="fill:red;;:;"', 'transform="scale()"', 'stroke="red" stroke-dasharray="a,b"',
